@@ -27,6 +27,7 @@ import (
 	"net"
 	"runtime"
 	"runtime/debug"
+	"sync/atomic"
 	"time"
 
 	"qchen.fun/fatchoy"
@@ -393,8 +394,10 @@ func runConn(in Sx) Sx {
 	errCh := make(chan error, 16)
 	incoming := make(chan fatchoy.IPacket, 256)
 	readerExit := make(chan struct{}, 4)
+	var cur atomic.Value // *qnet.TcpConn; only this scenario's connection counts (goroutines of an
+	// earlier one may still be passing their last schedule points)
 	qnet.VerifSetHook(func(t *qnet.TcpConn, name string) {
-		if name == "reader.exit" {
+		if c, _ := cur.Load().(*qnet.TcpConn); name == "reader.exit" && c == t {
 			select {
 			case readerExit <- struct{}{}:
 			default:
@@ -403,6 +406,7 @@ func runConn(in Sx) Sx {
 	})
 	defer qnet.VerifSetHook(nil)
 	tc := qnet.NewTcpConn(fatchoy.NodeID(1), srv, NewEncoder(ver, 0), errCh, incoming, 8, nil)
+	cur.Store(tc)
 	tc.Go(fatchoy.EndpointReader)
 	if len(data) > 0 {
 		if _, err := cli.Write(data); err != nil {
